@@ -447,6 +447,323 @@ def pushAmount (cut : Cut) (sq : K) (d : V3 K) : K := sq - d.get (cutIndex cut)
 
 end
 
+/-! ### FreeSurface / StackingFault as objects: what is kept between calls
+
+`FreeSurface` keeps `shift`, `system`, `surfacearea`; `StackingFault` adds `faultpos_rel`, `faultpos_cart`,
+the cached `abovefault` mask and the two shift vectors `a1vect_cart`, `a2vect_cart`.  `fault()` reads the
+*cached* mask and the *stored* system: the operations below mirror which attribute each call assigns and in
+which order, including what a refused call leaves behind. -/
+
+/-- `shift=` / `shiftindex=` / `shiftscale=` of `__init__`, `set_shift`, `surface`. -/
+inductive ShiftArg (K : Type) where
+  | keep                    -- neither given
+  | vec (v : V3 K)          -- `shift=v` (absolute)
+  | rel (v : V3 K)          -- `shift=v, shiftscale=True`
+  | idx (i : Int)           -- `shiftindex=i` (numpy indexing: negative indices count from the end)
+  | both                    -- both given: ValueError
+
+/-- `faultpos_rel=` / `faultpos_cart=`. -/
+inductive FaultPosArg (K : Type) where
+  | none | rel (r : K) | cart (c : K) | both
+
+/-- one entry of `sizemults`: an int or a `(lo, hi)` tuple. -/
+inductive MultArg where
+  | int (m : Int) | pair (lo hi : Int)
+
+/-- `a1=, a2=, outofplane=` / `faultshift=` of `fault()`. -/
+inductive FShiftArg (K : Type) where
+  | none
+  | coeffs (a1 a2 oop : Option K)
+  | direct (v : V3 K)
+  | both
+
+/-- numpy / Python indexing of a list by a possibly negative integer. -/
+def pyIndex {α : Type} (l : List α) (i : Int) : Option α :=
+  let n : Int := l.length
+  if 0 ≤ i ∧ i < n then l[i.toNat]? else if -n ≤ i ∧ i < 0 then l[(i + n).toNat]? else none
+
+/-- what `__init__` fixes: cut vector, rotated cell, offered shifts, the map from primitive crystal indices to
+    Cartesian vectors in the rotated frame (`transform . vector_crystal_to_cartesian`), the centring matrix,
+    the floor of `wrap`, the absolute tolerance of `np.isclose(x, 0.0)`. -/
+structure SFStatic (K : Type) where
+  cut : Cut
+  rbox : Box K
+  ratoms : List (C04.Atom K)
+  shifts : List (V3 K)
+  mcart : M3 K
+  L : M3 Int
+  fl : K → Int
+  atol : K
+
+/-- the built surface system; `area2` is the square of `surfacearea`. -/
+structure SurfSys (K : Type) where
+  box : Box K
+  pbc : V3 Bool
+  atoms : List (C04.Atom K)
+  area2 : K
+
+/-- mutable attributes of the object. -/
+structure SFState (K : Type) where
+  shift : V3 K
+  system : Option (SurfSys K)
+  fpRel : Option K
+  fpCart : Option K
+  above : Option (List Bool)
+  a1c : V3 K
+  a2c : V3 K
+
+/-- arguments of `surface()`; `ceilq = ceil(minwidth / rcellwidth)` (none: no `minwidth`). -/
+structure SurfArgs (K : Type) where
+  shift : ShiftArg K
+  m0 : MultArg
+  m1 : MultArg
+  m2 : MultArg
+  ceilq : Option Int
+  even : Bool
+  vac : Option K
+  fpos : FaultPosArg K
+
+/-- arguments of `fault()`: optional overrides of the two shift vectors (conventional indices, 3-index form),
+    optional fault position, the shift. -/
+structure FaultArgs (K : Type) where
+  a1v : Option (V3 K)
+  a2v : Option (V3 K)
+  fpos : FaultPosArg K
+  fshift : FShiftArg K
+
+/-- `supersize`'s reading of one multiplier: a malformed tuple is a TypeError, a zero extent a ValueError
+    (an int `0` falls through to a subscript error: TypeError). -/
+def MultArg.size? : MultArg → Except String C04.Size
+  | .int m => match C04.Size.ofInt? m with | some s => .ok s | none => .error "type"
+  | .pair lo hi => match C04.Size.ofPair? lo hi with
+    | some s => .ok s
+    | none => if lo ≤ 0 ∧ 0 ≤ hi then .error "value" else .error "type"
+
+/-- `minwidth` / `even` on the multiplier along the cut (an int; a tuple passes only when neither is used). -/
+def effMult (ceilq : Option Int) (even : Bool) : MultArg → Except String MultArg
+  | .int m => .ok (.int (cutMult m ceilq even))
+  | .pair lo hi => if ceilq.isNone && !even then .ok (.pair lo hi) else .error "type"
+
+/-- pbc of the surface system as a triple. -/
+def cutPbc (cut : Cut) : V3 Bool := ⟨cutIndex cut != 0, cutIndex cut != 1, cutIndex cut != 2⟩
+
+section
+variable {K : Type} [Add K] [Sub K] [Mul K] [Div K] [Neg K] [Zero K] [IntCast K] [LT K] [DecidableLT K]
+
+/-- the three sizes `supersize` receives. -/
+def sizesOf (cut : Cut) (a : SurfArgs K) : Except String (C04.Size × C04.Size × C04.Size) := do
+  let e0 ← if cutIndex cut = 0 then effMult a.ceilq a.even a.m0 else pure a.m0
+  let e1 ← if cutIndex cut = 1 then effMult a.ceilq a.even a.m1 else pure a.m1
+  let e2 ← if cutIndex cut = 2 then effMult a.ceilq a.even a.m2 else pure a.m2
+  let s0 ← e0.size?
+  let s1 ← e1.size?
+  let s2 ← e2.size?
+  pure (s0, s1, s2)
+
+/-- square of `surfacearea`: `|b x c|²`, `|a x c|²`, `|a x b|²` for cut a, b, c. -/
+def area2 (cut : Cut) (box : Box K) : K :=
+  match cut with
+  | .a => V3.normSq (V3.cross box.vects.r1 box.vects.r2)
+  | .b => V3.normSq (V3.cross box.vects.r0 box.vects.r2)
+  | .c => V3.normSq (V3.cross box.vects.r0 box.vects.r1)
+
+/-- the system `surface()` stores: supersize + shift + wrap (all periodic), pbc off across the cut, vacuum. -/
+def buildSurface (st : SFStatic K) (shift : V3 K) (s0 s1 s2 : C04.Size) (vac : Option K) : SurfSys K :=
+  let sa := surfaceAtoms st.rbox s0 s1 s2 st.fl shift st.ratoms
+  let box := match vac with
+    | some v => vacuumBox st.cut sa.1 v
+    | none => sa.1
+  ⟨box, cutPbc st.cut, sa.2, area2 st.cut box⟩
+
+def resolveShift (st : SFStatic K) (cur : V3 K) : ShiftArg K → Except String (V3 K)
+  | .keep => .ok cur
+  | .vec v => .ok v
+  | .rel v => .ok (M3.vecMul v st.rbox.vects)
+  | .idx i => match pyIndex st.shifts i with
+    | some s => .ok s
+    | none => .error "index"
+  | .both => .error "value"
+
+/-- `set_shift()`: with neither argument the first offered shift is selected. -/
+def setShiftOp (st : SFStatic K) (o : SFState K) (a : ShiftArg K) : SFState K × Except String Unit :=
+  match a with
+  | .keep => match st.shifts.head? with
+    | some s => ({ o with shift := s }, .ok ())
+    | none => (o, .error "index")
+  | a => match resolveShift st o.shift a with
+    | .ok s => ({ o with shift := s }, .ok ())
+    | .error e => (o, .error e)
+
+/-- `FreeSurface.surface()`: the shift is assigned first; a refusal by `supersize` or for a negative
+    vacuum width leaves the previous system in place. -/
+def surfaceBase (st : SFStatic K) (o : SFState K) (a : SurfArgs K) : SFState K × Except String Unit :=
+  match resolveShift st o.shift a.shift with
+  | .error e => (o, .error e)
+  | .ok sh =>
+    let o1 := { o with shift := sh }
+    match sizesOf st.cut a with
+    | .error e => (o1, .error e)
+    | .ok (s0, s1, s2) =>
+      match a.vac with
+      | some v =>
+        if v < 0 then (o1, .error "value")
+        else ({ o1 with system := some (buildSurface st sh s0 s1 s2 (some v)) }, .ok ())
+      | none => ({ o1 with system := some (buildSurface st sh s0 s1 s2 none) }, .ok ())
+
+/-- `abovefault = system.atoms.pos[:, cutindex] > faultpos_cart`. -/
+def maskOf (cut : Cut) (fp : K) (atoms : List (C04.Atom K)) : List Bool :=
+  atoms.map fun a => isAbove cut fp a.pos
+
+/-- `faultpos_rel` setter: range check, assign, then `faultpos_cart` and the mask from the *current* system. -/
+def setFpRel (st : SFStatic K) (o : SFState K) (r : K) : SFState K × Except String Unit :=
+  if r < 0 ∨ ((1 : Int) : K) < r then (o, .error "value") else
+  let o1 := { o with fpRel := some r }
+  match o.system with
+  | none => (o1, .error "attr")
+  | some s =>
+    let i := cutIndex st.cut
+    let fc := s.box.origin.get i + r * (s.box.vects.row i).get i
+    ({ o1 with fpCart := some fc, above := some (maskOf st.cut fc s.atoms) }, .ok ())
+
+/-- `faultpos_cart` setter. -/
+def setFpCart (st : SFStatic K) (o : SFState K) (c : K) : SFState K × Except String Unit :=
+  match o.system with
+  | none => (o, .error "attr")
+  | some s =>
+    let i := cutIndex st.cut
+    let r := (c - s.box.origin.get i) / (s.box.vects.row i).get i
+    if r < 0 ∨ ((1 : Int) : K) < r then (o, .error "value") else
+    ({ o with fpRel := some r, fpCart := some c, above := some (maskOf st.cut c s.atoms) }, .ok ())
+
+/-- the `faultpos_cart` / `faultpos_rel` block of `surface()` (`dflt`: 0.5 when neither is given) and of
+    `fault()` / `iterfaultmap()` (nothing when neither is given). -/
+def setFaultpos (st : SFStatic K) (o : SFState K) (dflt : Bool) : FaultPosArg K → SFState K × Except String Unit
+  | .both => (o, .error "value")
+  | .cart c => setFpCart st o c
+  | .rel r => setFpRel st o r
+  | .none => if dflt then setFpRel st o (((1 : Int) : K) / ((2 : Int) : K)) else (o, .ok ())
+
+/-- sequencing of two steps of a call: a refusal stops the call and keeps the state reached so far. -/
+def andThen {α : Type} (r : SFState K × Except String Unit) (f : SFState K → SFState K × Except String α) :
+    SFState K × Except String α :=
+  match r with
+  | (o, .error e) => (o, .error e)
+  | (o, .ok _) => f o
+
+/-- forget the fault plane of the previous system. -/
+def forgetFault (o : SFState K) : SFState K := { o with fpRel := none, fpCart := none, above := none }
+
+/-- `StackingFault.surface()`: the base class builds and stores the system, the fault position of the
+    previous system is forgotten, then the fault position (default 0.5) and the mask are set on the new one. -/
+def surfaceSF (st : SFStatic K) (o : SFState K) (a : SurfArgs K) : SFState K × Except String Unit :=
+  andThen (surfaceBase st o a) fun o1 => setFaultpos st (forgetFault o1) true a.fpos
+
+/-- `a1vect_uvw` / `a2vect_uvw` setter (`first`: a1): conventional → primitive → Cartesian in the rotated frame,
+    refused unless the component along the cut passes `np.isclose(x, 0.0)`. -/
+def setAvect (st : SFStatic K) (o : SFState K) (first : Bool) (uvw : V3 K) : SFState K × Except String Unit :=
+  let prim := M3.vecMul uvw (⟨toK st.L.r0, toK st.L.r1, toK st.L.r2⟩ : M3 K)
+  let c := M3.vecMul prim st.mcart
+  if absLe (c.get (cutIndex st.cut)) st.atol then
+    (if first then { o with a1c := c } else { o with a2c := c }, .ok ())
+  else (o, .error "value")
+
+/-- shift + wrap with a *given* mask (what `fault()` does with the cached `abovefault`). -/
+def faultWith (box : Box K) (pbc : V3 Bool) (fl : K → Int) (mask : List Bool) (shift : V3 K)
+    (ps : List (V3 K)) : List (V3 K) :=
+  (ps.zip mask).map fun pm => wrapPos box pbc fl (if pm.2 then pm.1 + shift else pm.1)
+
+def zeroV3 : V3 K := ⟨0, 0, 0⟩
+
+/-- an optional override of one shift vector. -/
+def optAvect (st : SFStatic K) (o : SFState K) (first : Bool) : Option (V3 K) → SFState K × Except String Unit
+  | some u => setAvect st o first u
+  | none => (o, .ok ())
+
+/-- the overrides at the head of `fault()` / `iterfaultmap()`, in the coded order. -/
+def faultPrelude (st : SFStatic K) (o : SFState K) (a1v a2v : Option (V3 K)) (fpos : FaultPosArg K) :
+    SFState K × Except String Unit :=
+  andThen (optAvect st o true a1v) fun o1 =>
+  andThen (optAvect st o1 false a2v) fun o2 =>
+  setFaultpos st o2 false fpos
+
+/-- the shift vector `fault()` applies. -/
+def resolveFShift (cut : Cut) (o : SFState K) : FShiftArg K → Except String (V3 K)
+  | .both => .error "value"
+  | .none => .ok zeroV3
+  | .direct v => .ok v
+  | .coeffs a1 a2 oop => .ok (faultShift (a1.getD 0) (a2.getD 0) (oop.getD 0) o.a1c o.a2c cut)
+
+/-- the body of `fault()` after the overrides: deep copy of the stored system, the cached mask, wrap. -/
+def faultCore (st : SFStatic K) (o : SFState K) (fs : FShiftArg K) : Except String (List (V3 K)) :=
+  match resolveFShift st.cut o fs with
+  | .error e => .error e
+  | .ok sh =>
+    match o.system, o.above with
+    | some s, some m =>
+      if m.length = s.atoms.length then
+        .ok (faultWith s.box s.pbc st.fl m sh (s.atoms.map (·.pos)))
+      else .error "index"
+    | _, _ => .error "attr"
+
+/-- `StackingFault.fault()` (without `minimum_r`). -/
+def faultOp (st : SFStatic K) (o : SFState K) (a : FaultArgs K) : SFState K × Except String (List (V3 K)) :=
+  andThen (faultPrelude st o a.a1v a.a2v a.fpos) fun o1 => (o1, faultCore st o1 a.fshift)
+
+/-- the `(a1, a2)` mesh of `iterfaultmap` in its iteration order (`a2` outer, `a1` inner). -/
+def faultMesh (n1 n2 : Nat) : List (K × K) :=
+  (List.range n2).flatMap fun (j : Nat) => (List.range n1).map fun (i : Nat) =>
+    (((Int.ofNat i : Int) : K) / ((Int.ofNat n1 : Int) : K), ((Int.ofNat j : Int) : K) / ((Int.ofNat n2 : Int) : K))
+
+/-- `iterfaultmap()`: overrides once, then `fault(a1=, a2=, outofplane=)` per mesh point. -/
+def iterFaultMap (st : SFStatic K) (o : SFState K) (a1v a2v : Option (V3 K)) (fpos : FaultPosArg K)
+    (n1 n2 : Nat) (oop : Option K) : SFState K × Except String (List (K × K × List (V3 K))) :=
+  andThen (faultPrelude st o a1v a2v fpos) fun o1 =>
+    (o1, (faultMesh n1 n2).mapM fun ab =>
+      (faultCore st o1 (.coeffs (some ab.1) (some ab.2) oop)).map fun ps => (ab.1, ab.2, ps))
+
+/-- a new object: `set_shift` of the constructor, the shift vectors are the two in-plane cell vectors of the
+    rotated cell (`a1index, a2index = (1,2), (2,0), (0,1)` for cut a, b, c), nothing built. -/
+def sfNew (st : SFStatic K) (a : ShiftArg K) : Except String (SFState K) :=
+  let a1 := st.rbox.vects.row ((cutIndex st.cut + 1) % 3)
+  let a2 := st.rbox.vects.row ((cutIndex st.cut + 2) % 3)
+  let o0 : SFState K := ⟨zeroV3, none, none, none, none, a1, a2⟩
+  match setShiftOp st o0 a with
+  | (o, .ok ()) => .ok o
+  | (_, .error e) => .error e
+
+/-- the calls of a history and what each returns. -/
+inductive SFOp (K : Type) where
+  | setShift (a : ShiftArg K)
+  | surface (a : SurfArgs K)
+  | fpRel (r : K)
+  | fpCart (c : K)
+  | fault (a : FaultArgs K)
+  | faultMap (a1v a2v : Option (V3 K)) (fpos : FaultPosArg K) (n1 n2 : Nat) (oop : Option K)
+
+inductive SFObs (K : Type) where
+  | unit
+  | positions (ps : List (V3 K))
+  | map (l : List (K × K × List (V3 K)))
+
+def sfStep (st : SFStatic K) (o : SFState K) : SFOp K → SFState K × Except String (SFObs K)
+  | .setShift a => let r := setShiftOp st o a; (r.1, r.2.map fun _ => .unit)
+  | .surface a => let r := surfaceSF st o a; (r.1, r.2.map fun _ => .unit)
+  | .fpRel x => let r := setFpRel st o x; (r.1, r.2.map fun _ => .unit)
+  | .fpCart x => let r := setFpCart st o x; (r.1, r.2.map fun _ => .unit)
+  | .fault a => let r := faultOp st o a; (r.1, r.2.map .positions)
+  | .faultMap a1v a2v fpos n1 n2 oop =>
+    let r := iterFaultMap st o a1v a2v fpos n1 n2 oop; (r.1, r.2.map .map)
+
+/-- a history: final state and everything the calls returned. -/
+def sfRun (st : SFStatic K) : SFState K → List (SFOp K) → SFState K × List (Except String (SFObs K))
+  | o, [] => (o, [])
+  | o, op :: t =>
+    let r := sfStep st o op
+    let rest := sfRun st r.1 t
+    (rest.1, r.2 :: rest.2)
+
+end
+
 
 /-! ### relational form of the routine (used where float ties make the coded choice unpredictable)
 
